@@ -39,3 +39,4 @@ CFG = dict(
 CFG["rule"] += ' RSA keys of 2047 and 2055 bits (modulus length not a multiple of eight) take part in every RSA case class, with message lengths at the exact maximum.'
 CFG["rule"] += " TestRSAKeyStructuresUnderRepoToolchain: RSA private keys with only n, e, d, run by a case program under the repository's own Go toolchain (skipped - zero cases - when the default go does not match go.mod). TestSymHugeLengths: every algorithm at lengths of 256 KiB to 4 MiB at and off block boundaries under GOMAXPROCS default, 2, 3, 5."
 CFG["rule"] += ' Before any sweep runs, a caller filters, overwrites and sorts in place the supported-algorithm lists it was handed; the lists read the same afterwards and every sweep of the process runs after that.'
+CFG["rule"] += ' TestSymRecordLayout: every symmetric algorithm that takes associated data (EncryptSymmetric/DecryptSymmetric) and the four aescbcaead AEADs directly, message 0..200 and associated data 0..40 bytes, with the arguments handed over as sub-slices WITHOUT capacity limits of one record buffer [aad | nonce | plaintext-or-ciphertext | tag] in a drawn field order (or separately allocated): the decryption returns the plaintext, twice from the same record, and no call changes the record it read from; non-trivial there: shared record, non-empty associated data with a non-empty field directly behind it.'
